@@ -171,7 +171,7 @@ pub struct Prepared {
 }
 
 pub fn prepare(property: &str, tier: &str, agg: &mut Agg) -> Prepared {
-    let (states, transitions) = dedup_states(wsdlgen::wsdl_states(tier == "thorough"));
+    let (states, transitions) = dedup_states(wsdlgen::wsdl_states(true) /* since round 4 the quick tier explores the thorough bound (depth 2) */);
     let ran = run_states(&states);
     let mut plans = BTreeMap::new();
     let mut cases = vec![];
